@@ -303,8 +303,9 @@ H_op_resp(o, e) ==
       \* reconnect verification reads
       \* reads of a reconnect verification: the Get of verifyLeadershipAfterReconnect and the validateToken read it issues
       \* at the instant that Get returns (several verifications may overlap)
-      isV1 == known /\ e.kind = "get" /\ q.src = "verify"
-      isV2 == known /\ e.kind = "get" /\ q.src = "validate" /\ q.vfy
+      \* (the verification gives its reads two seconds: an answer later than that reaches nobody)
+      isV1 == known /\ e.kind = "get" /\ q.src = "verify" /\ e.t - q.at <= 2000000
+      isV2 == known /\ e.kind = "get" /\ q.src = "validate" /\ q.vfy /\ e.t - q.at <= 2000000
       vown == e.ok /\ q.own        \* what the read returned (not what the store holds when the answer arrives)
       y3 == IF isV1 THEN [y2 EXCEPT !.verifyAt = e.t, !.verifyOwn = vown, !.verify = IF vown \/ ~x.claim THEN @ ELSE "failed"]
             \* the validateToken read decides the verification: showing ownership it also overrides the connection-test read before it
